@@ -21,7 +21,7 @@ theorem wt_simple_mono {vtys : List CSem.Ty} {ret : CSem.Ty} {st : Stmt} (hs : s
     simp only [Stmt.wt] at h ⊢
     split at h
     · rename_i hw
-      rw [if_pos ⟨by omega, hw.2.1, hw.2.2.1, take_mono_wt hle e hw.2.2.2⟩]
+      rw [if_pos ⟨by omega, hw.2.1, hw.2.2.1, take_mono_wt3 hle e hw.2.2.2⟩]
     · cases h
   · rename_i i t inc
     simp only [Stmt.wt] at h ⊢
@@ -33,11 +33,8 @@ theorem wt_simple_mono {vtys : List CSem.Ty} {ret : CSem.Ty} {st : Stmt} (hs : s
     simp only [Stmt.wt] at h ⊢
     split at h
     · rename_i hw
-      rw [if_pos (take_mono_wt hle e hw)]
+      rw [if_pos (take_mono_wt3 hle e hw)]
     · cases h
-
-theorem frag_simple (P : List CSem2.Func) (cnts : List Nat) {st : Stmt} (hs : st.isSimple = true) : frag P cnts st = true := by
-  cases st <;> simp only [Stmt.isSimple, Bool.false_eq_true] at hs <;> rfl
 
 section
 variable (T : Stat) {s : Store} {out : CSem2.Outcome} {lp : Bool × Bool} {brk cont : String} {c : SCtx}
@@ -45,7 +42,7 @@ variable (T : Stat) {s : Store} {out : CSem2.Outcome} {lp : Bool × Bool} {brk c
 
 /-- `for` after its head `hd` (condition and branch, or the bare label `for_body`), whose behaviour is
     given by `hhead`. -/
-theorem sim_for_core (n : Nat) (ih : ∀ m, m ≤ n → SimStmt T m) (e : Option Expr) (step b : Stmt)
+theorem sim_for_core (n : Nat) (ih : ∀ m, m ≤ n → SimStmt T m) (e : Option Expr3) (step b : Stmt)
     (hd : List Item × SCtx)
     (hex : exec T.S.cs T.P (n + 1) s (.for_ e step b) = some out) (hfs : frag T.P T.cnts step = true) (hfb : frag T.P T.cnts b = true)
     (hsimple : step.isSimple = true) {n2 : Nat}
@@ -66,9 +63,9 @@ theorem sim_for_core (n : Nat) (ih : ∀ m, m ≤ n → SimStmt T m) (e : Option
         (lblName "for_cont" (c.blockid + 3)))).ctx.setJump (.jmp (lblName "for_cond" (c.blockid + 1))))
         (lblName "for_join" (c.blockid + 4))]) ++ post)
     (hhead : Ext T hd.2 → CanJump T.S (lblName "for_join" (c.blockid + 4)) →
-      ∀ (s : Store) (env : Env) (M : Mem) (v : Int),
+      ∀ (m : Nat), m ≤ n → ∀ (s : Store) (env : Env) (M : Mem) (v : Int),
       (match e with
-        | some e => evalE T.S.cs s e
+        | some e => evalE3 T.S.cs (callOf T.P fun s' st' => exec T.S.cs T.P m s' st') s e
         | none => some 1) = some v → SInv T.M0 T.S.cs T.cnts T.σ T.vtys s env M →
       ∃ k env' st, T.Reach k (T.at env M (pre ++ [.lbl none (lblName "for_cond" (c.blockid + 1)) []])) st ∧
         SInv T.M0 T.S.cs T.cnts T.σ T.vtys s env' M ∧
@@ -155,7 +152,7 @@ theorem sim_for_core (n : Nat) (ih : ∀ m, m ≤ n → SimStmt T m) (e : Option
       intro _ s env M out hex inv
       simp only [exec, Option.bind_eq_some_iff] at hex
       obtain ⟨v, hev, hex⟩ := hex
-      obtain ⟨k1, env1, st, hreach, inv1, hat⟩ := hhead s env M v hev inv
+      obtain ⟨k1, env1, st, hreach, inv1, hat⟩ := hhead 0 (Nat.zero_le _) s env M v hev inv
       by_cases hv0 : v = 0
       · rw [if_pos hv0] at hex
         simp only [Option.some.injEq] at hex
@@ -170,7 +167,7 @@ theorem sim_for_core (n : Nat) (ih : ∀ m, m ≤ n → SimStmt T m) (e : Option
       intro hk s env M out hex inv
       simp only [exec, Option.bind_eq_some_iff] at hex
       obtain ⟨v, hev, hex⟩ := hex
-      obtain ⟨k1, env1, st, hreach, inv1, hat⟩ := hhead s env M v hev inv
+      obtain ⟨k1, env1, st, hreach, inv1, hat⟩ := hhead (k + 1) hk s env M v hev inv
       by_cases hv0 : v = 0
       · rw [if_pos hv0] at hex
         simp only [Option.some.injEq] at hex
@@ -255,7 +252,8 @@ theorem sim_for_core (n : Nat) (ih : ∀ m, m ≤ n → SimStmt T m) (e : Option
     hp.jump, setJump_jump] at this ⊢
   exact this
 
-theorem sim_for (n : Nat) (ih : ∀ m, m ≤ n → SimStmt T m) (e : Option Expr) (step b : Stmt)
+theorem sim_for (n : Nat) (hc : ∀ m, m ≤ n → CallOK T m) (ih : ∀ m, m ≤ n → SimStmt T m) (e : Option Expr3)
+    (step b : Stmt)
     (hex : exec T.S.cs T.P (n + 1) s (.for_ e step b) = some out) (hfr : frag T.P T.cnts (.for_ e step b) = true)
     (hwt : Stmt.wt T.vtys T.ret lp.1 lp.2 nd (.for_ e step b) = some nd') (hp : Pos T c nd pre)
     (hext : Ext T (funcstmt T.S.cs brk cont (.for_ e step b) c).ctx)
@@ -263,15 +261,15 @@ theorem sim_for (n : Nat) (ih : ∀ m, m ≤ n → SimStmt T m) (e : Option Expr
     (inv : SInv T.M0 T.S.cs T.cnts T.σ T.vtys s env M) :
     Post T lp brk cont (T.at env M pre) (pre ++ (funcstmt T.S.cs brk cont (.for_ e step b) c).items)
       (funcstmt T.S.cs brk cont (.for_ e step b) c).ctx out := by
-  simp only [frag, Bool.and_eq_true] at hfr
   simp only [Stmt.wt] at hwt
   split at hwt
-  · rename_i hc
-    obtain ⟨hwe, hsimple, _⟩ := hc
+  · rename_i hcw
+    obtain ⟨hwe, hsimple, _⟩ := hcw
     simp only [Option.bind_eq_some_iff, Option.some.injEq] at hwt
     obtain ⟨n1, hwb, n2, hws, rfl⟩ := hwt
     cases e with
     | none =>
+      simp only [frag, Bool.and_eq_true] at hfr
       simp only [funcstmt] at hext hits ⊢
       refine sim_for_core T n ih none step b
         ([Item.lbl none (lblName "for_body" (c.blockid + 2)) []],
@@ -281,7 +279,7 @@ theorem sim_for (n : Nat) (ih : ∀ m, m ≤ n → SimStmt T m) (e : Option Expr
       · refine ⟨rfl, curOf_lbl _ _ _ _ _, ?_, hp.nslots, hp.le⟩
         unf
         exact curOK_label "for_body" _ _ _ (by omega)
-      · intro _ _ s env M v hv inv
+      · intro _ _ m _ s env M v hv inv
         simp only [Option.some.injEq] at hv
         subst hv
         obtain ⟨rest, hrest0⟩ : ∃ rest, T.S.its = pre ++ .lbl none (lblName "for_cond" (c.blockid + 1)) [] ::
@@ -296,18 +294,21 @@ theorem sim_for (n : Nat) (ih : ∀ m, m ≤ n → SimStmt T m) (e : Option Expr
         refine ⟨1, env, _, Reach.one (step_fall_item T hrest env M), inv, ?_⟩
         rw [if_pos (by decide)]
     | some e =>
-      simp only [optWt, Bool.true_and] at hwe
+      simp only [optWtC] at hwe
+      simp only [frag, Bool.and_eq_true] at hfr
+      have hfe : efrag T e := by simp only [efrag, Bool.and_eq_true]; exact hfr.1
+      have hfr := hfr.2
       have hj1 : ((c.addBlocks 4).atLabel (lblName "for_cond" (c.blockid + 1))).jump = none := rfl
       have hj2 : (((c.addBlocks 4).atLabel (lblName "for_cond" (c.blockid + 1))).upd
-        (exprOut T.S.cs ((c.addBlocks 4).atLabel (lblName "for_cond" (c.blockid + 1))) e).ctx).jump = none := rfl
-      simp only [funcstmt, lowerE_eq T.S.cs hj1, lowerJnz_eq T.S.cs hj2] at hext hits ⊢
-      have ge := exprOut_good T.S.cs ((c.addBlocks 4).atLabel (lblName "for_cond" (c.blockid + 1))) e
+        (exprOut3 T.S.cs ((c.addBlocks 4).atLabel (lblName "for_cond" (c.blockid + 1))) e).ctx).jump = none := rfl
+      simp only [funcstmt, lowerE3_eq T.S.cs hj1, lowerJnz_eq T.S.cs hj2] at hext hits ⊢
+      have ge := exprOut3_good T.S.cs ((c.addBlocks 4).atLabel (lblName "for_cond" (c.blockid + 1))) e
       have sj := jnzArg_straight T.S.cs (((c.addBlocks 4).atLabel (lblName "for_cond" (c.blockid + 1))).upd
-        (exprOut T.S.cs ((c.addBlocks 4).atLabel (lblName "for_cond" (c.blockid + 1))) e).ctx).ctx e.ty
-        (exprOut T.S.cs ((c.addBlocks 4).atLabel (lblName "for_cond" (c.blockid + 1))) e).val
+        (exprOut3 T.S.cs ((c.addBlocks 4).atLabel (lblName "for_cond" (c.blockid + 1))) e).ctx).ctx e.ty
+        (exprOut3 T.S.cs ((c.addBlocks 4).atLabel (lblName "for_cond" (c.blockid + 1))) e).val
       change Straight _ (jnzOut T.S.cs (((c.addBlocks 4).atLabel (lblName "for_cond" (c.blockid + 1))).upd
-        (exprOut T.S.cs ((c.addBlocks 4).atLabel (lblName "for_cond" (c.blockid + 1))) e).ctx) e.ty
-        (exprOut T.S.cs ((c.addBlocks 4).atLabel (lblName "for_cond" (c.blockid + 1))) e).val) at sj
+        (exprOut3 T.S.cs ((c.addBlocks 4).atLabel (lblName "for_cond" (c.blockid + 1))) e).ctx) e.ty
+        (exprOut3 T.S.cs ((c.addBlocks 4).atLabel (lblName "for_cond" (c.blockid + 1))) e).val) at sj
       have l1 := ge.lastid; have l2 := sj.lastid; have b1 := ge.blockid; have b2 := sj.blockid
       unf at l1 l2 b1 b2
       have hpc : Pos T ((c.addBlocks 4).atLabel (lblName "for_cond" (c.blockid + 1))) nd
@@ -316,21 +317,21 @@ theorem sim_for (n : Nat) (ih : ∀ m, m ≤ n → SimStmt T m) (e : Option Expr
         unf
         exact curOK_label "for_cond" _ _ _ (by omega)
       refine sim_for_core T n ih (some e) step b
-        ((exprOut T.S.cs ((c.addBlocks 4).atLabel (lblName "for_cond" (c.blockid + 1))) e).items ++
+        ((exprOut3 T.S.cs ((c.addBlocks 4).atLabel (lblName "for_cond" (c.blockid + 1))) e).items ++
           (jnzOut T.S.cs (((c.addBlocks 4).atLabel (lblName "for_cond" (c.blockid + 1))).upd
-            (exprOut T.S.cs ((c.addBlocks 4).atLabel (lblName "for_cond" (c.blockid + 1))) e).ctx) e.ty
-            (exprOut T.S.cs ((c.addBlocks 4).atLabel (lblName "for_cond" (c.blockid + 1))) e).val).items ++
+            (exprOut3 T.S.cs ((c.addBlocks 4).atLabel (lblName "for_cond" (c.blockid + 1))) e).ctx) e.ty
+            (exprOut3 T.S.cs ((c.addBlocks 4).atLabel (lblName "for_cond" (c.blockid + 1))) e).val).items ++
           [Item.lbl (some (.jnz (jnzOut T.S.cs (((c.addBlocks 4).atLabel
             (lblName "for_cond" (c.blockid + 1))).upd
-            (exprOut T.S.cs ((c.addBlocks 4).atLabel (lblName "for_cond" (c.blockid + 1))) e).ctx) e.ty
-            (exprOut T.S.cs ((c.addBlocks 4).atLabel (lblName "for_cond" (c.blockid + 1))) e).val).val
+            (exprOut3 T.S.cs ((c.addBlocks 4).atLabel (lblName "for_cond" (c.blockid + 1))) e).ctx) e.ty
+            (exprOut3 T.S.cs ((c.addBlocks 4).atLabel (lblName "for_cond" (c.blockid + 1))) e).val).val
             (lblName "for_body" (c.blockid + 2)) (lblName "for_join" (c.blockid + 4))))
             (lblName "for_body" (c.blockid + 2)) []],
          ((((c.addBlocks 4).atLabel (lblName "for_cond" (c.blockid + 1))).upd
-            (exprOut T.S.cs ((c.addBlocks 4).atLabel (lblName "for_cond" (c.blockid + 1))) e).ctx).upd
+            (exprOut3 T.S.cs ((c.addBlocks 4).atLabel (lblName "for_cond" (c.blockid + 1))) e).ctx).upd
             (jnzOut T.S.cs (((c.addBlocks 4).atLabel (lblName "for_cond" (c.blockid + 1))).upd
-            (exprOut T.S.cs ((c.addBlocks 4).atLabel (lblName "for_cond" (c.blockid + 1))) e).ctx) e.ty
-            (exprOut T.S.cs ((c.addBlocks 4).atLabel (lblName "for_cond" (c.blockid + 1))) e).val).ctx).atLabel
+            (exprOut3 T.S.cs ((c.addBlocks 4).atLabel (lblName "for_cond" (c.blockid + 1))) e).ctx) e.ty
+            (exprOut3 T.S.cs ((c.addBlocks 4).atLabel (lblName "for_cond" (c.blockid + 1))) e).val).ctx).atLabel
             (lblName "for_body" (c.blockid + 2)))
         hex hfr.1 hfr.2 hsimple hwb hws hp ?_ ?_ (hext.congr rfl rfl) hits ?_ inv
       · refine ⟨rfl, ?_, ?_, hp.nslots, ?_⟩
@@ -344,37 +345,37 @@ theorem sim_for (n : Nat) (ih : ∀ m, m ≤ n → SimStmt T m) (e : Option Expr
           omega
       · unf
         omega
-      · intro hexth hcj s env M v hv inv
+      · intro hexth hcj m hm s env M v hv inv
         obtain ⟨rest, hrest⟩ : ∃ rest, T.S.its = (pre ++ [.lbl none (lblName "for_cond" (c.blockid + 1)) []]) ++
-            (exprOut T.S.cs ((c.addBlocks 4).atLabel (lblName "for_cond" (c.blockid + 1))) e).items ++
+            (exprOut3 T.S.cs ((c.addBlocks 4).atLabel (lblName "for_cond" (c.blockid + 1))) e).items ++
             (jnzOut T.S.cs (((c.addBlocks 4).atLabel (lblName "for_cond" (c.blockid + 1))).upd
-              (exprOut T.S.cs ((c.addBlocks 4).atLabel (lblName "for_cond" (c.blockid + 1))) e).ctx) e.ty
-              (exprOut T.S.cs ((c.addBlocks 4).atLabel (lblName "for_cond" (c.blockid + 1))) e).val).items ++
+              (exprOut3 T.S.cs ((c.addBlocks 4).atLabel (lblName "for_cond" (c.blockid + 1))) e).ctx) e.ty
+              (exprOut3 T.S.cs ((c.addBlocks 4).atLabel (lblName "for_cond" (c.blockid + 1))) e).val).items ++
             .lbl (some (.jnz (jnzOut T.S.cs (((c.addBlocks 4).atLabel
               (lblName "for_cond" (c.blockid + 1))).upd
-              (exprOut T.S.cs ((c.addBlocks 4).atLabel (lblName "for_cond" (c.blockid + 1))) e).ctx) e.ty
-              (exprOut T.S.cs ((c.addBlocks 4).atLabel (lblName "for_cond" (c.blockid + 1))) e).val).val
+              (exprOut3 T.S.cs ((c.addBlocks 4).atLabel (lblName "for_cond" (c.blockid + 1))) e).ctx) e.ty
+              (exprOut3 T.S.cs ((c.addBlocks 4).atLabel (lblName "for_cond" (c.blockid + 1))) e).val).val
               (lblName "for_body" (c.blockid + 2)) (lblName "for_join" (c.blockid + 4))))
               (lblName "for_body" (c.blockid + 2)) [] :: rest := by
           have h' := hits
           simp only [List.append_assoc, List.singleton_append, List.cons_append, List.nil_append, labelItem,
             hp.jump] at h'
           obtain ⟨rest, hr⟩ : ∃ rest, T.S.its = pre ++ .lbl none (lblName "for_cond" (c.blockid + 1)) [] ::
-              ((exprOut T.S.cs ((c.addBlocks 4).atLabel (lblName "for_cond" (c.blockid + 1))) e).items ++
+              ((exprOut3 T.S.cs ((c.addBlocks 4).atLabel (lblName "for_cond" (c.blockid + 1))) e).items ++
               ((jnzOut T.S.cs (((c.addBlocks 4).atLabel (lblName "for_cond" (c.blockid + 1))).upd
-                (exprOut T.S.cs ((c.addBlocks 4).atLabel (lblName "for_cond" (c.blockid + 1))) e).ctx) e.ty
-                (exprOut T.S.cs ((c.addBlocks 4).atLabel (lblName "for_cond" (c.blockid + 1))) e).val).items ++
+                (exprOut3 T.S.cs ((c.addBlocks 4).atLabel (lblName "for_cond" (c.blockid + 1))) e).ctx) e.ty
+                (exprOut3 T.S.cs ((c.addBlocks 4).atLabel (lblName "for_cond" (c.blockid + 1))) e).val).items ++
               .lbl (some (.jnz (jnzOut T.S.cs (((c.addBlocks 4).atLabel
                 (lblName "for_cond" (c.blockid + 1))).upd
-                (exprOut T.S.cs ((c.addBlocks 4).atLabel (lblName "for_cond" (c.blockid + 1))) e).ctx) e.ty
-                (exprOut T.S.cs ((c.addBlocks 4).atLabel (lblName "for_cond" (c.blockid + 1))) e).val).val
+                (exprOut3 T.S.cs ((c.addBlocks 4).atLabel (lblName "for_cond" (c.blockid + 1))) e).ctx) e.ty
+                (exprOut3 T.S.cs ((c.addBlocks 4).atLabel (lblName "for_cond" (c.blockid + 1))) e).val).val
                 (lblName "for_body" (c.blockid + 2)) (lblName "for_join" (c.blockid + 4))))
                 (lblName "for_body" (c.blockid + 2)) [] :: rest)) := ⟨_, h'⟩
           refine ⟨rest, ?_⟩
           rw [hr]; simp only [List.append_assoc, List.singleton_append, List.cons_append, List.nil_append]
         have hcb : CanJump T.S (lblName "for_body" (c.blockid + 2)) := canJump_item T.S hrest
-        obtain ⟨k1, env1, st, hreach, inv1, hat⟩ := sim_branch T hpc e 0
-          (by rw [addBlocks_zero]; exact hexth.congr rfl rfl) hwe hv
+        obtain ⟨k1, env1, st, hreach, inv1, hat⟩ := sim_branch T m (hc m hm) hpc e 0
+          (by rw [addBlocks_zero]; exact hexth.congr rfl rfl) hwe hfe hv
           (by rw [addBlocks_zero]; exact hrest) hcb hcj inv
         refine ⟨k1, env1, st, hreach, inv1, ?_⟩
         by_cases hv0 : v ≠ 0
